@@ -531,6 +531,7 @@ func (c20) Run(t *testing.T, tape *core.Tape, rcx *RunCtx) *core.Result {
 	leak, pv := core.Bubble(t, func() {
 		sim = core.NewSim(tape)
 		sim.Record = rcx.Record
+		sim.TimeJitter = true
 		readReturned := make(chan struct{})                                           // closed when uniprot.Read has handed the channels back
 		sim.MaxSteps = 400*len(plain) + 400*len(damaged) + 400*len(payloadB) + 100000 // backstop only; liveness is judged by progress below
 		// liveness after the last byte: once the reader has returned EOF or its
